@@ -400,6 +400,8 @@ def check_meta(ctx, ms):
                 container.sunvox_version = ver  # the project is written as a file of an older SunVox version
             container.attach_module(mod)
             in_project = True
+        if len(repr(ms)) % 3 == 0 and build.failed_save_in_past(container, len(repr(ms))):
+            labels.add("failed_save_in_the_past")
         s0 = snapshot.snap_module(mod, in_project=in_project)
         if mod.user_defined_controllers != n:
             raise PropertyViolation("C15.count.before_save", "count reads %r after assigning %d" % (mod.user_defined_controllers, n))
